@@ -37,19 +37,36 @@ def to_v(x):
     return {'L': [d, {'O': json.dumps(x, sort_keys=True, default=repr)}]}
 
 
-def from_v(v):
+def from_v(v, shared=None):
+    """{"N": items, "id": n} defines dict object n, {"R": n} is the SAME object again (YAML anchor/alias, one dict under two keys)"""
+    shared = {} if shared is None else shared
+    if 'R' in v:
+        return shared[v['R']]
     if 'N' in v:
-        return {k: from_v(x) for k, x in v['N']}
+        d = {}
+        if v.get('id'):
+            shared[v['id']] = d
+        for k, x in v['N']:
+            d[k] = from_v(x, shared)
+        return d
     d, a = v['L']
     if isinstance(a, dict):
         a = json.loads(a['O'] if 'O' in a else a['Li'])
     return DefaultValue(a) if d else a
 
 
-def plain(v):
-    """V without DefaultValue wrappers (what a yaml file can say)"""
+def plain(v, shared=None):
+    """V without DefaultValue wrappers (what a yaml file can say); shared dicts stay shared, so yaml.safe_dump writes anchors"""
+    shared = {} if shared is None else shared
+    if 'R' in v:
+        return shared[v['R']]
     if 'N' in v:
-        return {k: plain(x) for k, x in v['N']}
+        d = {}
+        if v.get('id'):
+            shared[v['id']] = d
+        for k, x in v['N']:
+            d[k] = plain(x, shared)
+        return d
     a = v['L'][1]
     return json.loads(a['O'] if 'O' in a else a['Li']) if isinstance(a, dict) else a
 
@@ -87,8 +104,8 @@ def yaml_documents_unmodified(start):
 
 
 def do_merge(r):
-    base = from_v(r['base'])
-    srcs = [from_v(s) for s in r['srcs']]
+    base = from_v(r['base'], {})
+    srcs = [from_v(s, {}) for s in r['srcs']]
     t = base
     for s in srcs:
         t = deep_update(t, s)
@@ -193,23 +210,73 @@ def do_cli(r, tmp):
     record_yaml_documents()
     y0 = len(YAML_DOCS)
     argv = list(r['argv'])
-    for n, doc in enumerate(r['files']):     # one --configuration option followed by all files (nargs='*')
-        path = os.path.join(tmp, 'c%d.yaml' % n)
+    groups = r.get('file_groups') or ([len(r['files'])] if r['files'] else [])     # how the files are spread over --configuration options
+    starts, acc = set(), 0
+    for g in groups:
+        starts.add(acc)
+        acc += g
+    for n, doc in enumerate(r['files']):
+        # names whose alphabetical order is the REVERSE of the command-line order
+        path = os.path.join(tmp, 'c%02d_%d.yaml' % (len(r['files']) - n, id(r) % 1000))
         with open(path, 'w', encoding='utf-8') as f:
             yaml.safe_dump(plain(doc), f)
-        argv += (['--configuration'] if n == 0 else []) + [path]
+        argv += (['--configuration'] if n in starts else []) + [path]
     args = _make_parser().parse_args(['root_ns'] + argv)
     runner = ArgparseRunner.__new__(ArgparseRunner)
     runner._args = args
     seen = {n: getattr(args, n, None) for n in ARG_NAMES}
     try:
         ctx = runner._create_language_context()
+        listed = list_configuration(runner, ctx)       # what `nnvg --list-configuration` prints, before anything else touches the context
         out = observe(ctx)
         out['args'] = seen
+        out.update(listed)
         out['yaml_docs'] = yaml_documents_unmodified(y0)
         return out
     except Exception as ex:  # noqa
         return {'args': seen, 'options': 'ERR', 'error': repr(ex)}
+
+
+def list_configuration(runner, ctx):
+    """runs the real ArgparseRunner._list_configuration_only and reads its output back"""
+    import contextlib
+    import io
+    runner._language_context = ctx
+    buf = io.StringIO()
+    try:
+        with contextlib.redirect_stdout(buf):
+            runner._list_configuration_only()
+    except Exception as ex:  # noqa
+        return {'listed': None, 'listed_error': repr(ex)}
+    text = buf.getvalue()
+    head, _, body = text.partition('\n')
+    try:
+        yaml.safe_load(body)
+        safe = True
+    except yaml.YAMLError:
+        safe = False
+    try:
+        doc = yaml.load(body, Loader=yaml.Loader)      # own output of the process under test; the full loader rebuilds DefaultValue objects
+    except Exception as ex:  # noqa
+        return {'listed': None, 'listed_error': repr(ex), 'listed_safe_loadable': safe}
+    return {'listed': to_v(doc), 'listed_target': head, 'listed_safe_loadable': safe, 'listed_has_wrapper': 'DefaultValue' in body}
+
+
+def do_emptydoc(tmp):
+    """an empty and a comment-only configuration file"""
+    out = {}
+    for name, text in (('empty', ''), ('comment', '# nunavut.lang.c:\n#   options: {}\n')):
+        path = os.path.join(tmp, 'e_%s.yaml' % name)
+        with open(path, 'w', encoding='utf-8') as f:
+            f.write(text)
+        b = LanguageContextBuilder(include_experimental_languages=True).set_target_language('c')
+        before = to_v(b.config.sections())
+        try:
+            b.add_config_files(path)
+            out[name] = 'identity' if to_v(b.config.sections()) == before else 'changed'
+        except Exception as ex:  # noqa
+            out[name] = 'raised ' + type(ex).__name__
+    return out
 
 
 def do_coerce(r):
@@ -247,6 +314,8 @@ def main():
                     outs.append(do_proc(r, tmp))
                 elif r['kind'] == 'cli':
                     outs.append(do_cli(r, tmp))
+                elif r['kind'] == 'emptydoc':
+                    outs.append(do_emptydoc(tmp))
                 elif r['kind'] == 'coerce':
                     outs.append(do_coerce(r))
                 elif r['kind'] == 'builtin':
